@@ -334,11 +334,20 @@ class NumpyModel:
                 if o == '+' and a_.ravel is not None and len(a_.ravel[0]) == len(a_.ravel[1]) and b_.ty == 'ndarray' and b_.digit is not None and b_.ravel is None:
                     out = out.w(ravel=(a_.ravel[0] + [b_], a_.ravel[1]))
                     break
+        # per-axis lengths a, b, c (and those divided by the grid size) stay per-axis lengths
+        if o == '/' and (l.tuple_of == 'lattice.lengths' or l.per_axis_len) and r.geo is None:
+            out = out.w(per_axis_len=True)
         # arithmetic with (a row of) a literal table remembers the table
         tb = [x.tbl if x.tbl is not None else (x.litconst if (x.ty == 'ndarray' and is_table(x.litconst)) else None) for x in (l, r)]
         if (tb[0] is None) != (tb[1] is None):
             out = out.w(tbl=tb[0] if tb[0] is not None else tb[1])
         g = self.geo_binop(interp, o, l, r, node)
+        # voxel coordinates times the voxel edge lengths (cell lengths / grid size): Cartesian only in an orthogonal cell
+        for a_, b_ in ((l, r), (r, l)):
+            if o == '*' and g is None and b_.per_axis_len and a_.ty in (None, 'ndarray', 'tuple', 'list') and not has_const(a_) and not a_.per_axis_len and a_.geo is None:
+                interp.emit('ortho_assumption', node, left=l, right=r)
+                g = ('CART', 'ORTHO', 'vec')
+                break
         out = out.w(geo=g)
         # axes: broadcasting keeps the axes of the higher-rank operand when known
         ax = l.axes if l.axes is not None else r.axes
@@ -547,6 +556,7 @@ class NumpyModel:
             if o == '*' and ((is_fractional(gl) and r.tuple_of == 'lattice.lengths') or (is_fractional(gr) and l.tuple_of == 'lattice.lengths')):
                 interp.emit('ortho_assumption', node, left=l, right=r)
                 return ('CART', 'ORTHO', 'vec')
+
             if gl is not None and gr is None:
                 g, other = gl, r
             elif gr is not None and gl is None and o == '*':
